@@ -207,6 +207,7 @@ impl V {
                 }
                 true
             }
+            V::Int(n) => *n != i64::MIN, // the literal grammar parses the digits as a positive i64 first
             V::Str(s) => !s.ends_with('\\') && !s.contains('\n'),
             V::List(l) => l.iter().all(|x| x.guard_expressible()),
             V::Map(m) => m
